@@ -472,6 +472,8 @@ class Interp(Folder):
                 return v.cls.methods[a].bind(v)
             raise PyRaise("AttributeError", f"{v.cls.name}.{a}", e)
         if isinstance(v, IClass):
+            if a in ("__name__", "__qualname__"):
+                return v.name
             if a in v.nested:
                 return v.nested[a]
             if a in v.methods:
@@ -745,6 +747,8 @@ class Interp(Folder):
         if f is _type_fn:
             if args and isinstance(args[0], DT):
                 return TypeCtor(args[0].cls)  # the class object of a data type value (usable as a dictionary key)
+            if args and isinstance(args[0], Obj) and isinstance(args[0].cls, IClass):
+                return args[0].cls  # the interpreted class itself (dispatch tables keyed by class)
             return ("type-of", args[0] if args else None)
         if getattr(f, "__name__", "") == "_itertools_product":
             import itertools as _it
